@@ -18,7 +18,10 @@
    - Every Go panic site is an explicit `..Panic` outcome, the non-terminating
      loop of Write (chunk size > buffer) is the `..Hang` outcome reached when
      the fuel runs out.  The fuel given by the entry points is enough for every
-     terminating execution (proved in Proofs/GridfsProofs.v for 0 < cs <= B). *)
+     terminating execution (proved in Proofs/GridfsProofs.v for 0 < cs <= B).
+     Since lungo fix ae31d98 a stream can only be opened with 0 < cs <= B
+     (`open_upload`), so these outcomes are unreachable through the API; the
+     internal functions still model them (theorems `unguarded_*`). *)
 From Lungo.Model Require Import Base.
 Open Scope Z_scope.
 Open Scope list_scope.
@@ -147,6 +150,13 @@ Record ustream := mkU {
 
 (* newUploadStream *)
 Definition new_upload (f cs : Z) : ustream := mkU f cs None 0 0 [] false.
+
+(* OpenUploadStreamWithID (lines 376-410) / VerifOpenUploadStream: the chunk
+   size is validated against the upload buffer before the stream is created
+   (fix ae31d98): zero or less would divide by zero in upload, more than the
+   buffer would never let Write make progress.  None = the returned error. *)
+Definition open_upload (c : cfg) (f cs : Z) : option ustream :=
+  if (cs <=? 0) || (cs >? cfg_B c) then None else Some (new_upload f cs).
 
 Definition u_set_marker (u : ustream) (m : option Z) : ustream :=
   mkU (u_file u) (u_cs u) m (u_length u) (u_chunks u) (u_buf u) (u_closed u).
@@ -507,17 +517,17 @@ Definition dread (d : dstream) (want : Z) : dstream * rres :=
   else if d_pos d >=? f_length (d_file d) then (d, ROk [] (Some EEOF))
   else read_loop (S (S (S (2 * cursor_len d)))) d want 0.
 
-(* Seek, lines 1143-1180; an unknown whence leaves `position` at 0 *)
+(* Seek, lines 1150-1190; an unknown whence is an error (fix ae31d98) *)
 Inductive pres := POk (p : Z) | PErr (e : gerr) | PPanic.
 
 Definition dseek_whence (st : store) (d : dstream) (offset whence : Z) : dstream * pres :=
   if d_closed d then (d, PErr EClosed)
+  else if (whence <? 0) || (whence >? 2) then (d, PErr EOther)   (* default: invalid whence *)
   else
     let position :=
       if whence =? 0 then offset
       else if whence =? 1 then d_pos d + offset
-      else if whence =? 2 then f_length (d_file d) + offset
-      else 0 in
+      else f_length (d_file d) + offset in
     match dseek st d position with
     | (d1, SOk) => (d_set_pos d1 position, POk position)
     | (d1, SErr e) => (d1, PErr e)
@@ -698,7 +708,11 @@ Definition gstep (c : cfg) (seed : Z) (g : gstate) (op : sexp) : option (gstate 
   match op with
   | SList [SAtom "open"; SAtom f; SAtom cs] =>
       match parse_Z f, parse_Z cs with
-      | Some f, Some cs => Some (mkG st (Some (new_upload f cs)) (g_down g), "o", false)
+      | Some f, Some cs =>
+          match open_upload c f cs with
+          | Some u => Some (mkG st (Some u) (g_down g), "o", false)
+          | None => Some (mkG st None (g_down g), "o:ERR", false)
+          end
       | _, _ => None
       end
   | SList [SAtom "w"; SAtom off; SAtom len] =>
